@@ -1465,8 +1465,15 @@ class EvolveAppTask(BaseEvolutionTask):
         app_prefix = self.app.__name__.split('.')[0]
 
         for mutation in self._mutations:
+            mutation_hint = '%s' % mutation
             mutation_types.add(type(mutation).__name__)
-            mutation_lines.append('    %s,' % mutation)
+            mutation_lines.append('    %s,' % mutation_hint)
+
+            if 'models.' in mutation_hint:
+                # Field types, query expressions, constraint types and other
+                # values living in django.db.models are all rendered with
+                # a "models." prefix, whichever mutation carries them.
+                imports.add('from django.db import models')
 
             if isinstance(mutation, AddField):
                 field_module = mutation.field_type.__module__
